@@ -115,6 +115,37 @@ Theorem C17_auth_terminates : forall uid with_fd scr, uid < 2 ^ 32 ->
 Proof. exact auth_terminates. Qed.
 Print Assumptions C17_auth_terminates.
 
+(* ... and bounds that do not depend on the server's script at all (however long it is and whether or not it ever
+   ends a line): every system call of the handshake is in the log, so the first bound is on reads + writes; the
+   second is on the bytes taken from the peer. MAX_AUTH_LINE_LEN = 16384. *)
+Theorem C17_auth_bounded : forall uid with_fd scr, uid < 2 ^ 32 ->
+  match connect_to_bus uid with_fd scr with
+  | (res, s) => len (log s) <= 2 * (MAX_AUTH_LINE_LEN + 1) + 4
+                /\ len (received (log s)) <= 2 * (MAX_AUTH_LINE_LEN + 512)
+  end.
+Proof. exact auth_bounded. Qed.
+Print Assumptions C17_auth_bounded.
+
+(* one read_message call (fresh buffer, any socket state whose queued reads have 1..512 bytes): at most
+   MAX_AUTH_LINE_LEN + 1 read calls, at most MAX_AUTH_LINE_LEN + 512 bytes buffered *)
+Theorem C17_read_bounded : forall fuel s, wf s ->
+  match read_message fuel s [] with
+  | (r, s') => len (log s') <= len (log s) + MAX_AUTH_LINE_LEN + 1
+               /\ exists d, received (log s') = received (log s) ++ d /\ len d <= MAX_AUTH_LINE_LEN + 512
+  end.
+Proof. exact read_message_bounded. Qed.
+Print Assumptions C17_read_bounded.
+
+(* an error while waiting for a reply line means: more than MAX_AUTH_LINE_LEN bytes without CR LF, or end of file
+   before CR LF, or a complete line that is not UTF-8 *)
+Theorem C17_reply_error : forall word evs,
+  reply word evs AErr ->
+  (exists ps, evs = map R ps /\ ~ has_crlf (concat ps) /\ MAX_AUTH_LINE_LEN < len (concat ps))
+  \/ (exists ps, evs = map R ps ++ [E] /\ ~ has_crlf (concat ps))
+  \/ (exists ps line dropped, evs = map R ps /\ first_line (concat ps) line dropped /\ utf8_valid line = false).
+Proof. exact reply_too_long. Qed.
+Print Assumptions C17_reply_error.
+
 Theorem C17_auth_result : forall uid with_fd scr, uid < 2 ^ 32 -> responsive with_fd scr ->
   fst (connect_to_bus uid with_fd scr) <> CBlocked.
 Proof. exact auth_not_blocked. Qed.
